@@ -22,3 +22,151 @@ def _lemma_pred_succ():
 
 
 REG.lemmas.append(('C14-p-precedes-t-iff-t-succeeds-p', ['C14'], _lemma_pred_succ))
+
+
+# ================================================================================================ BatchPlanning.generate_plan (C14)
+from pyvc.state import ObjV   # noqa: E402
+from .deps import NODE, NODEATTR, EDGEATTR, NUMNODES, INDEG   # noqa: E402
+from .world import world_of   # noqa: E402
+
+REG.ctor_params['BatchPlanning'] = {'algorithm': 'str', 'delay_model': 'DelayModel'}
+REG.inline_ok.update({'Planning._create_observation_task_id', 'Buffer.buffer_storage_summary'})
+
+CONCAT = z3.Function('concat', I, I, I)
+STR_OF = z3.Function('str_of', I, I)
+STR_OF_NUM = z3.Function('str_of_num', R, I)
+USC = lambda: z3.IntVal(STRINGS.intern('_'))
+
+
+def tid(name, clock, node):
+    """spec function: name + '_' + str(clock) + '_' + str(node)"""
+    return CONCAT(CONCAT(CONCAT(CONCAT(name, USC()), STR_OF_NUM(clock)), USC()), STR_OF(node))
+
+
+def plan_world(eng):
+    d = world_of('buffer')(eng)
+    pl = eng.construct('BatchPlanning')
+    return {'self': pl, 'cluster': d['cluster'], 'buffer': d['buffer']}
+
+
+REG.contract('Planning._calc_workflow_est', world=plan_world, params={'observation': 'Observation', 'buffer': 'root:buffer'},
+             requires=lambda c: [('cold-rate-positive', c.o.buffer.cold[0].max_data_rate.t > 0)],
+             ensures=lambda c: [('is-the-duration', c.result.t == c.o.observation.duration.t)], result='num', props=['C14'])
+GRAPH_OF = z3.Function('graph_of_workflow_file', I, I)
+
+REG.contract('BatchPlanning._workflow_to_nx', assumed=True, params={'workflow': 'str'},
+             ensures=lambda c: [('the-graph-described-by-the-file', z3.And(c.result.t > 0, c.result.t == GRAPH_OF(c.o.workflow.t)))],
+             result='ref:Graph',
+             note="ASSUMED: file I/O + networkx.node_link_graph; the graph it returns is arbitrary")
+
+
+def _task_matches_node(c, sv, g, obs, clock, t):
+    """task t is the faithful copy of node gid[t] of graph g"""
+    H = lambda f: z3.Select(sv.heap('Task', f), t)
+    x = H('graph_id')
+    na = NODEATTR(g, x)
+    comp = z3.Select(sv.heap('NodeAttr', 'comp'), na)
+    td = z3.Select(sv.heap('NodeAttr', 'task_data'), na)
+    has = z3.Select(sv.heap('NodeAttr', 'has:task_data', B), na)
+    nm = obs.name.t
+    predcnt = z3.Select(sv.heap('Task', 'pred.cnt', IntArr), t)
+    iokeys = z3.Select(sv.heap('Task', 'io.keys', BoolArr), t)
+    iovals = z3.Select(sv.heap('Task', 'io.vals', z3.ArraySort(I, R)), t)
+    p = z3.Int('pp')
+    return z3.And(
+        NODE(g, x), H('id') == tid(nm, clock, x), H('flops') == comp, H('task_data') == z3.If(has, td, 0),
+        H('task_status') == enum_code('TaskStatus', 'UNSCHEDULED'),
+        z3.ForAll([p], z3.Implies(EDGE(g, p, x), z3.And(
+            z3.Select(predcnt, tid(nm, clock, p)) >= 1, z3.Select(iokeys, tid(nm, clock, p)),
+            z3.Select(iovals, tid(nm, clock, p)) == z3.Select(sv.heap('EdgeAttr', 'transfer_data'), EDGEATTR(g, p, x))))),
+        z3.Select(sv.heap('Task', 'pred.n', I), t) == INDEG(g, x))
+
+
+def string_axioms():
+    """ASSUMED about Python strings: str() is injective on node identifiers; s + t determines t for a fixed s"""
+    a, b, p_ = z3.Int('sa'), z3.Int('sb'), z3.Int('sp')
+    return [('assume:str-is-injective-on-node-ids', z3.ForAll([a, b], z3.Implies(STR_OF(a) == STR_OF(b), a == b))),
+            ('assume:concatenation-is-injective-in-its-suffix', z3.ForAll([p_, a, b], z3.Implies(CONCAT(p_, a) == CONCAT(p_, b), a == b)))]
+
+
+def config_axioms(c, sv):
+    x = z3.Int('nq')
+    return [('assume:node-demands-nonneg', z3.ForAll([x], z3.And(z3.Select(sv.heap('NodeAttr', 'comp'), x) >= 0,
+                                                               z3.Select(sv.heap('NodeAttr', 'task_data'), x) >= 0)))]
+
+
+def _gp_inv(c):
+    n = c.n
+    vis = c.x['visited']
+    T, M = n['tasks'], n['mapping']
+    g = n['graph'].t
+    clock = n.clock.t
+    alloc = c.eng.alloc()
+    alloc_pre = c.x['pre']._s.ghost.get('alloc', c.eng.alloc0())
+    return [('existing-tasks-keep-their-status', Q([('x', I)], lambda x: z3.Implies(z3.Select(alloc_pre, x), z3.Select(
+        n.heap('Task', 'task_status'), x) == z3.Select(c.x['pre'].heap('Task', 'task_status'), x)))),
+            ('new-tasks-are-new', Q([('t', I)], lambda t: z3.Implies(T.count(t) > 0, z3.Not(z3.Select(alloc_pre, t))))),
+            ('old-objects-stay-allocated', Q([('x', I)], lambda x: z3.Implies(z3.Select(alloc_pre, x), z3.Select(alloc, x)))),
+            ('C14-one-task-per-visited-node', z3.And(T.n == vis.n, M.nk == vis.n)),
+            ('C14-mapping-covers-exactly-the-visited-nodes', Q([('x', I)], lambda x: z3.Select(M.keys, x) == (z3.Select(vis.cnt, x) > 0))),
+            ('C14-mapped-task-is-listed-once-and-copies-its-node', Q([('x', I)], lambda x: z3.Implies(z3.Select(M.keys, x), z3.And(
+                T.count(z3.Select(M.vals, x)) == 1, z3.Select(M.vals, x) > 0, z3.Select(alloc, z3.Select(M.vals, x)),
+                z3.Select(n.heap('Task', 'graph_id'), z3.Select(M.vals, x)) == x,
+                _task_matches_node(c, n, g, n.observation, clock, z3.Select(M.vals, x)))))),
+            ('C14-every-listed-task-is-the-image-of-its-node', Q([('t', I)], lambda t: z3.Implies(T.count(t) > 0, z3.And(
+                T.count(t) == 1, z3.Select(M.keys, z3.Select(n.heap('Task', 'graph_id'), t)),
+                z3.Select(M.vals, z3.Select(n.heap('Task', 'graph_id'), t)) == t))))]
+
+
+def _edge_inv(c):
+    n = c.n
+    vis = c.x['visited']
+    ec = n['edge_costs']
+    g, x = n['graph'].t, c.eng.as_int_term(n['task'].val)
+    nm, clock = n.observation.name.t, n.clock.t
+    return [('io-has-every-visited-predecessor-edge', Q([('p', I)], lambda p: z3.Implies(z3.Select(vis.cnt, p) > 0, z3.And(
+        z3.Select(ec.keys, tid(nm, clock, p)),
+        z3.Select(ec.vals, tid(nm, clock, p)) == z3.Select(n.heap('EdgeAttr', 'transfer_data'), EDGEATTR(g, p, x))))))]
+
+
+def _gp_ens(c):
+    o, n = c.o, c.n
+    plan = c.result
+    g2 = plan.graph.t
+    T = plan.tasks
+    H = lambda f, t: z3.Select(n.heap('Task', f), t)
+    g = GRAPH_OF(o.observation.workflow.t)
+    tw = z3.Int('tw')
+    return [('C14-exactly-as-many-tasks-as-nodes', T.n == NUMNODES(g)),
+            ('C14-every-task-is-a-faithful-copy-of-its-node', Q([('t', I)], lambda t: z3.Implies(
+                T.count(t) > 0, _task_matches_node(c, n, g, o.observation, o.clock.t, t)))),
+            ('C14-every-node-has-a-task', Q([('x', I)], lambda x: z3.Implies(NODE(g, x), z3.Exists(
+                [tw], z3.And(T.count(tw) > 0, H('graph_id', tw) == x))))),
+            ('C14-plan-graph-has-the-same-edges', Q([('t', I), ('u', I)], lambda t, u: z3.Implies(
+                z3.And(T.count(t) > 0, T.count(u) > 0), EDGE(g2, t, u) == EDGE(g, H('graph_id', t), H('graph_id', u))))),
+            ('C14-plan-carries-the-observation-name', plan.id.t == o.observation.name.t),
+            ('C14-task-ids-unique-given-distinct-nodes', Q([('t', I), ('u', I)], lambda t, u: z3.Implies(
+                z3.And(T.count(t) > 0, T.count(u) > 0, t != u), H('graph_id', t) != H('graph_id', u)))),
+            ('C14-each-task-listed-once', Q([('t', I)], lambda t: T.count(t) <= 1))]
+
+
+REG.contract('BatchPlanning.generate_plan', world=plan_world,
+             params={'clock': 'num', 'cluster': 'root:cluster', 'buffer': 'root:buffer', 'observation': 'Observation', 'max_ingest': 'any'},
+             requires=lambda c: [('cold-rate-positive', c.o.buffer.cold[0].max_data_rate.t > 0)] + string_axioms() + config_axioms(c, c.o),
+             ensures=_gp_ens, result='WorkflowPlan',
+             raises={'RuntimeError': dict(when=lambda c: c.o.self.algorithm.t != STRINGS.intern('batch')),
+                     'KeyError': dict(when=None, unchanged=False)},
+             modifies=['ghost:alloc'] + ['heap:Task.' + f for f in ('id', 'est', 'eft', 'ast', 'aft', 'allocated_machine_id', 'duration',
+                       'est_duration', 'delay_flag', 'task_status', 'pred', 'delay', 'delay_offset', 'workflow_offset', 'graph_id', 'flops',
+                       'task_data', 'io')] + ['heap:WorkflowPlan.' + f for f in ('id', 'est', 'eft', 'tasks', 'exec_order', 'status',
+                       'max_ingest', 'graph', 'min_resources', 'max_resources', 'priority')],
+             props=['C14'])
+REG.loop('BatchPlanning.generate_plan', 0, inv=_gp_inv,
+         modifies_locals=['task', 'tid', 'dm', 'pred', 'predecessors', 'succ', 'successors', 'edge_costs', 'data', 'element', 'nm', 'val',
+                          'est', 'eft', 'machine_id', 'task_compute', 'task_data', 'taskobj'],
+         modifies=['tasks', 'mapping', 'ghost:alloc'] + ['heap:Task.' + f for f in ('id', 'est', 'eft', 'ast', 'aft', 'allocated_machine_id',
+                   'duration', 'est_duration', 'delay_flag', 'task_status', 'pred', 'delay', 'delay_offset', 'workflow_offset', 'graph_id',
+                   'flops', 'task_data', 'io')],
+         props=['C14'])
+REG.loop('BatchPlanning.generate_plan', 1, inv=_edge_inv, modifies_locals=['element', 'nm', 'val'], modifies=['edge_costs'],
+         elem_types={'edge_costs': 'dict:str->num'}, props=['C14'])
